@@ -177,6 +177,10 @@ func stxJudge(c *core.Ctx, db *sqlite.DB, k *stxCase, phase string) {
 // stxMatrix runs the whole sweep on one database file.
 func stxMatrix(c *core.Ctx) {
 	t0 := time.Now()
+	c.Rep.Rule += " KEY EXCHANGE SESSIONS (store_more.go): every key exchange suite x every registered cipher suite, owner session stored through SetXSession after Parameter(), after SetParameter(), and " +
+		"both in turn through one token; read back in the same process (twice, the second time in reverse order after all others were written) and after closing and reopening the file (twice): same suite, " +
+		"session type, cipher suite id, algorithms, keys and marshalled bytes; a session stored before SetParameter completes the exchange with the device's parameter to the device's keys; messages of " +
+		"0/1/15/16/17/1300 bytes encrypted by the device-side session decrypt with the session read back and the other way round: xsession-not-restored:<suite>:<cipher>."
 	bg := context.Background()
 	path := filepath.Join(WorkDir(), fmt.Sprintf("c18-xsess-%d-%d.db", os.Getpid(), stFileSeq.Add(1)))
 	defer func() {
